@@ -11,6 +11,7 @@ import (
 	"time"
 
 	"github.com/alicebob/miniredis/v2"
+	miniserver "github.com/alicebob/miniredis/v2/server"
 	"github.com/oauth2-proxy/oauth2-proxy/v7/pkg/apis/sessions"
 	"github.com/oauth2-proxy/oauth2-proxy/v7/pkg/sessions/redis"
 	"github.com/oauth2-proxy/oauth2-proxy/v7/verifx/sched"
@@ -61,6 +62,73 @@ type Redis struct {
 	inners   []redis.Client
 	unixPath string
 	unixL    net.Listener
+
+	// command-level facility (WatchCommands): the commands the SERVER received, and the decision
+	// function that may turn a single command into an error reply
+	cmdMu    sync.Mutex
+	cmdWatch func(c *ServerCmd) string
+	cmdLog   []*ServerCmd
+	cmdSeq   int
+}
+
+// ServerCmd is one Redis command as the server received it, i.e. beneath the repository's own
+// client code (pkg/sessions/redis client.go / lock.go), beneath redislock and go-redis: one store
+// operation of the hooked Client interface may consist of several of them.
+type ServerCmd struct {
+	Seq  int      // running number since WatchCommands was called (0-based)
+	Name string   // upper case: GET SET DEL EVALSHA ...
+	Args []string // arguments as sent (Args[0] is the key for the single-key commands)
+}
+
+// WatchCommands installs (f != nil) or removes (f == nil) a server-side pre-hook that sees every
+// single command the server receives. f returns "" to let the command execute, or the text of an
+// error reply ("ERR ...") that the server sends INSTEAD of executing it (error before effect, at the
+// granularity of one command). Every watched command is logged (Commands). The running number and
+// the log start afresh with every call. It coexists with the "error before effect" faults of
+// Intercept (failAtServer re-installs the watcher after its own server-wide error).
+func (r *Redis) WatchCommands(f func(c *ServerCmd) string) {
+	r.cmdMu.Lock()
+	r.cmdWatch, r.cmdLog, r.cmdSeq = f, nil, 0
+	r.cmdMu.Unlock()
+	r.installCmdHook()
+}
+
+func (r *Redis) installCmdHook() {
+	r.cmdMu.Lock()
+	f := r.cmdWatch
+	r.cmdMu.Unlock()
+	if r.M == nil {
+		return
+	}
+	if f == nil {
+		r.M.Server().SetPreHook(nil)
+		return
+	}
+	r.M.Server().SetPreHook(func(p *miniserver.Peer, cmd string, args ...string) bool {
+		r.cmdMu.Lock()
+		w := r.cmdWatch
+		if w == nil {
+			r.cmdMu.Unlock()
+			return false
+		}
+		c := &ServerCmd{Seq: r.cmdSeq, Name: strings.ToUpper(cmd), Args: append([]string{}, args...)}
+		r.cmdSeq++
+		r.cmdLog = append(r.cmdLog, c)
+		reply := w(c)
+		r.cmdMu.Unlock()
+		if reply == "" {
+			return false
+		}
+		p.WriteError(reply)
+		return true
+	})
+}
+
+// Commands returns the commands the server received since WatchCommands was called.
+func (r *Redis) Commands() []*ServerCmd {
+	r.cmdMu.Lock()
+	defer r.cmdMu.Unlock()
+	return append([]*ServerCmd{}, r.cmdLog...)
 }
 
 // NewRedis starts a miniredis on loopback.
@@ -134,6 +202,12 @@ func (r *Redis) Reset() {
 	r.mu.Lock()
 	r.Calls, r.seq, r.Intercept, r.Canon = nil, 0, nil, nil
 	r.mu.Unlock()
+	r.cmdMu.Lock()
+	watched := r.cmdWatch != nil
+	r.cmdMu.Unlock()
+	if watched {
+		r.WatchCommands(nil)
+	}
 	r.hookClock()
 }
 
@@ -271,6 +345,13 @@ func (r *Redis) failAtServer(injected error, op func() error) error {
 	r.M.SetError("ERR " + injected.Error())
 	err := op()
 	r.M.SetError("")
+	r.cmdMu.Lock()
+	watched := r.cmdWatch != nil
+	r.cmdMu.Unlock()
+	if watched {
+		// SetError shares the server's single pre-hook slot with WatchCommands: put the watcher back
+		r.installCmdHook()
+	}
 	if err == nil {
 		return injected
 	}
